@@ -500,6 +500,34 @@ def _elementwise(name, f):
     return g
 
 
+def _tensordot(a, b, axes=2):
+    if not (_symbolic_arg(a) or _symbolic_arg(b)):
+        return _np.tensordot(a, b, axes=axes)
+    ra, rb = _raw(a), _raw(b)
+    r = _np.tensordot(ra.astype(object), rb.astype(object), axes=axes)
+    if not isinstance(r, _np.ndarray):
+        r = _raw(r)
+    return ndarray(r, getattr(a, 'tdtype', None) or getattr(b, 'tdtype', None))
+
+
+def _transpose(a, axes=None):
+    if not _symbolic_arg(a):
+        return _np.transpose(a, axes)
+    return ndarray(_np.transpose(_raw(a), axes), getattr(a, 'tdtype', None))
+
+
+def _einsum_np(eq, *ops, **k):
+    if not any(_symbolic_arg(o) for o in ops):
+        return _np.einsum(eq, *ops, **k)
+    from . import symtorch as st
+    ts = [st.Tensor(_raw(o), getattr(o, 'tdtype', None) or st.float64) for o in ops]
+    r = st.einsum(eq, *ts)
+    return ndarray(r.a, r.dtype)
+
+
+facade.tensordot = _tensordot
+facade.transpose = _transpose
+facade.einsum = _einsum_np
 facade.ones = _ones
 facade.zeros = _zeros
 facade.exp = _elementwise('exp', _np.exp)
